@@ -50,7 +50,10 @@ SLLogInt(n) ==                                                          \* log n
           [] OTHER -> Zero])
 
 SLHasLog(q) == q[1] >= 1 /\ Smooth(q[1]) /\ Smooth(q[2])                \* q > 0 and log q representable
-SLLog(q)    == SLSub(SLLogInt(q[1]), SLLogInt(q[2]))                    \* log of a positive smooth rational
+\* log of a positive smooth rational; anything else is an error of the bounded instance (TLC stops: machinery failure),
+\* never a silently wrong expected value
+SLLog(q)    == IF SLHasLog(q) THEN SLSub(SLLogInt(q[1]), SLLogInt(q[2]))
+               ELSE Assert(FALSE, <<"SymLog: log of a non-positive or non-smooth rational requested", q>>)
 
 RECURSIVE SLLogFact(_)
 SLLogFact(n) == IF n <= 1 THEN SLZero ELSE SLAdd(SLLogInt(n), SLLogFact(n - 1))   \* log n!  (log Gamma(n+1))
